@@ -211,6 +211,8 @@ HAND = [
     "{% for i in xs offset: continue %}{{ i }}{% endfor %}", "{% comment %}x{% endcomment %}{% # inline %}", "{% liquid\nassign v = 1\necho v\n%}",
     "{{ a if b else c | upcase || append: 'x' }}", "{% case a %}{% when 1, 'x' or true %}w{% else %}e{% endcase %}", "{% include 'p' with xs[0] as v, arg: 1 %}",
     "{% render 'p' for xs as item, arg: 'z' %}", "{% increment c %}{% decrement c %}", "{% capture v %}x{{ a }}{% endcapture %}{{ v }}", "{% echo a | default: 'x', allow_false: true %}",
+    "{% raw %}a{{% endraw %}{{ a }}", "{% raw %}a{{% endraw %}{% if true %}b{% endif %}", "a{% raw %}{{% endraw %}%}", "{% raw %}{{% endraw %}% assign v = 1 %}[{{ v }}]", "{% raw %}{{% endraw %}{% raw %}{{% endraw %} a }}",
+    "{% raw %}{{% endraw %}# c #}", "x{% raw %}{{% endraw %}{% raw %}%{% endraw %} assign v = 2 {% raw %}%}{% endraw %}[{{ v }}]",
     "{% unless a %}u{% elsif b %}e{% else %}x{% endunless %}", "{{ (1..n) | join: '-' }}", "{{ -1.5 | abs }}{{ 1.0 }}", "{{ nil }}{{ true }}{{ empty }}{{ blank }}",
     "{% if a == empty or b == blank %}y{% endif %}", "{{ a | where: 'k', true }}", "{%- if a -%} x {%- endif -%}", "{% doc %}d{% enddoc %}",
 ]
